@@ -100,7 +100,7 @@ func keytabFilterRule(w *World, c *Check, rule string) {
 		{"realm", "entry realm equals the requested realm", []GuardPat{EqPass("@1", ent+`\.Principal\.Realm`)}, false},
 		{"component-count", "entry has as many components as the requested name", []GuardPat{EqPass(P("len(@0.NameString)"), `len\(`+ent+`\.Principal\.Components\)`)}, false},
 		{"etype", "entry key type equals the requested etype", []GuardPat{EqPass("@3", ent+`\.Key\.KeyType`)}, false},
-		{"kvno", "entry kvno equals the requested kvno, unless kvno 0 (any) was requested", []GuardPat{EqPass("@2", ent+`\.KVNO`), EqPass("0", "@2")}, false},
+		{"kvno", "entry kvno equals the requested kvno, unless kvno 0 (any) was requested", []GuardPat{EqPass(`(?:uint32\()?@2\)?`, ent+`\.KVNO`), EqPass("0", "@2")}, false},
 		{"newest", "entry is newer than the best match so far", []GuardPat{TruePass(`time\.\(Time\)\.After\(` + ent + `\.Timestamp, .*\)`)}, false},
 		{"components", "every component equals the requested one", []GuardPat{EqPass(P("@0.NameString[", re(`\$i\d+`), "]"), ent+`\.Principal\.Components\[\$i\d+\]`)}, true},
 	}
@@ -160,7 +160,7 @@ func keytabFilterRule(w *World, c *Check, rule string) {
 		}
 		// the kvno==0 wildcard must exist (any version when 0 is requested)
 		wild := fa.MatchGuard(EqPass("0", "@2"))
-		eqk := fa.MatchGuard(EqPass("@2", ent+`\.KVNO`))
+		eqk := fa.MatchGuard(EqPass(`(?:uint32\()?@2\)?`, ent+`\.KVNO`))
 		if len(eqk) > 0 {
 			rm := map[Edge]bool{}
 			for _, e := range eqk {
